@@ -279,6 +279,16 @@ class Server(object):
                 t.join(max(0.0, deadline - time.monotonic()))
         return not any(t.is_alive() for t in self.threads)
 
+    def refuse_from_now(self):
+        """Stop listening but keep the port bound: further connection attempts
+        are refused, and no other process can take the port meanwhile."""
+        self.stopping = True
+        try:
+            self.lsock.shutdown(socket.SHUT_RDWR)
+        except OSError:
+            pass
+        self.acceptor.join(2.0)
+
     def stop(self):
         self.stopping = True
         # closing a listening socket does not wake a thread blocked in
